@@ -14,6 +14,8 @@ package main
 import (
 	"encoding/json"
 	"fmt"
+	"go/ast"
+	"strconv"
 	"os"
 	"go/token"
 	"go/types"
@@ -27,13 +29,15 @@ type jsonField struct {
 	name      string
 	omitempty bool
 	path      []int
+	depth     int
+	tagged    bool
 	typ       types.Type
 }
 
 func jsonFields(st *types.Struct) []jsonField {
-	var out []jsonField
-	var rec func(st *types.Struct, path []int)
-	rec = func(st *types.Struct, path []int) {
+	var all []jsonField
+	var rec func(st *types.Struct, path []int, depth int)
+	rec = func(st *types.Struct, path []int, depth int) {
 		for i := 0; i < st.NumFields(); i++ {
 			f := st.Field(i)
 			tag := reflect.StructTag(st.Tag(i)).Get("json")
@@ -44,28 +48,69 @@ func jsonFields(st *types.Struct) []jsonField {
 			p := append(append([]int{}, path...), i)
 			if f.Embedded() && name == "" {
 				ft := f.Type()
-				if pt, ok := ft.Underlying().(*types.Pointer); ok {
-					ft = pt.Elem()
+				_, isPtr := ft.Underlying().(*types.Pointer)
+				if isPtr {
+					ft = ft.Underlying().(*types.Pointer).Elem()
 				}
 				if est, ok := ft.Underlying().(*types.Struct); ok {
-					if _, isPtr := f.Type().Underlying().(*types.Pointer); !isPtr {
-						rec(est, p)
-						continue
+					if isPtr {
+						p = append(p, derefStep) // the promoted fields live behind the pointer (absent when it is nil)
 					}
+					rec(est, p, depth+1)
+					continue
 				}
 			}
 			if !f.Exported() {
 				continue
 			}
+			tagged := name != ""
 			if name == "" {
 				name = f.Name()
 			}
-			out = append(out, jsonField{name: name, omitempty: strings.Contains(","+opts+",", ",omitempty,"), path: p, typ: f.Type()})
+			all = append(all, jsonField{name: name, omitempty: strings.Contains(","+opts+",", ",omitempty,"), path: p, typ: f.Type(), depth: depth, tagged: tagged})
 		}
 	}
-	rec(st, nil)
+	rec(st, nil, 0)
+	// Go's rule for equal names: the shallowest field wins; among several at that depth a single tagged one wins,
+	// otherwise the name is dropped altogether
+	var out []jsonField
+	done := map[string]bool{}
+	for _, f := range all {
+		if done[f.name] {
+			continue
+		}
+		done[f.name] = true
+		var same []jsonField
+		min := 1 << 30
+		for _, g := range all {
+			if g.name == f.name {
+				same = append(same, g)
+				if g.depth < min {
+					min = g.depth
+				}
+			}
+		}
+		var top, topTagged []jsonField
+		for _, g := range same {
+			if g.depth == min {
+				top = append(top, g)
+				if g.tagged {
+					topTagged = append(topTagged, g)
+				}
+			}
+		}
+		switch {
+		case len(top) == 1:
+			out = append(out, top[0])
+		case len(topTagged) == 1:
+			out = append(out, topTagged[0])
+		}
+	}
 	return out
 }
+
+// derefStep in a jsonField path: load the struct the embedded pointer designates
+const derefStep = -1
 
 func (tr *Translator) jsonDecls() {
 	u := tr.u
@@ -75,6 +120,22 @@ func (tr *Translator) jsonDecls() {
 	u.decl("specfn:oCnt", "(declare-fun oCnt (JV String) Int)")
 	u.decl("specfn:oVal", "(declare-fun oVal (JV String) JV)")
 	u.decl("specfn:isObj", "(declare-fun isObj (JV) Bool)")
+	// the text behind a JSON value: well-formed texts without leading white space (what encoding/json produces, and what
+	// it hands to an UnmarshalJSON method) start with the character of their kind
+	u.decl("specfn:jbyte0", "(declare-fun jbyte0 (Slice) Int)")
+	u.decl("specfn:jWF", "(declare-fun jWF (Slice) Bool)")
+	u.decl("specfn:jIsStr", "(declare-fun jIsStr (JV) Bool)")
+	u.decl("specfn:jIsArr", "(declare-fun jIsArr (JV) Bool)")
+	u.decl("specfn:jTrue", "(declare-fun jTrue () JV)")
+	u.decl("specfn:jFalse", "(declare-fun jFalse () JV)")
+	u.decl("jkinds", `(assert (forall ((b Slice)) (! (=> (jWF b) (and (>= (sl_len b) 1) (not (= (sl_arr b) 0))
+		(= (= (jbyte0 b) 123) (isObj (jv b))) (= (= (jbyte0 b) 91) (jIsArr (jv b))) (= (= (jbyte0 b) 34) (jIsStr (jv b)))
+		(=> (or (isObj (jv b)) (jIsArr (jv b)) (jIsStr (jv b))) (>= (sl_len b) 2))
+		(=> (= (jv b) jNull) (= (jbyte0 b) 110)) (=> (= (jv b) jTrue) (= (jbyte0 b) 116)) (=> (= (jv b) jFalse) (= (jbyte0 b) 102))))
+		:pattern ((jWF b)))))`)
+	u.decl("jkinds_disjoint", `(assert (and (not (isObj jNull)) (not (jIsArr jNull)) (not (jIsStr jNull)) (not (isObj jTrue)) (not (jIsArr jTrue)) (not (jIsStr jTrue))
+		(not (isObj jFalse)) (not (jIsArr jFalse)) (not (jIsStr jFalse)) (distinct jNull jTrue jFalse)
+		(forall ((v JV)) (! (and (=> (isObj v) (and (not (jIsArr v)) (not (jIsStr v)))) (=> (jIsArr v) (not (jIsStr v)))) :pattern ((isObj v)) :pattern ((jIsArr v)) :pattern ((jIsStr v))))))`)
 	u.decl("oCnt_nonneg", "(assert (forall ((j JV) (k String)) (! (>= (oCnt j k) 0) :pattern ((oCnt j k)))))")
 	tr.trusted["encoding/json, swag.ConcatJSON, jsonpointer.GetForToken: tag-directed model (struct fields by JSON name, omitempty, embedded promotion, custom codecs called; member names matched exactly, not case-insensitively)"] = true
 }
@@ -119,6 +180,7 @@ func (tr *Translator) decFn(t types.Type) (dec, ok string) {
 		sid := u.typeID(strT)
 		u.decl("specfn:jIsStr", "(declare-fun jIsStr (JV) Bool)")
 		u.decl("dec_iface_str", fmt.Sprintf("(assert (forall ((v JV)) (! (and (= (= (if_t (%s v)) %d) (jIsStr v)) (=> (jIsStr v) (= (unbox_String (if_v (%s v))) (%s v)))) :pattern ((%s v)))))", dec, sid, dec, sdec, dec))
+		u.decl("dec_iface_null", fmt.Sprintf("(assert (= (if_t (%s jNull)) 0))", dec))
 		u.decl("enc_str_isstr", fmt.Sprintf("(assert (forall ((s String)) (! (and (jIsStr (%s s)) (= (%s (%s s)) s) (not (= (%s s) jNull))) :pattern ((%s s)))))", senc, sdec, senc, senc, senc))
 		// encoding an interface{} holding a string is encoding the string
 		ienc := "enc_" + typeKey(t)
@@ -152,7 +214,7 @@ func (tr *Translator) emptyOfState(st *State, v *Val, t types.Type) string {
 	case *types.Slice:
 		return eq(slPart(v, 2), "0")
 	case *types.Map:
-		return or(eq(v.E(), "0"), eq("(select "+st.get(u, "MLen")+" "+v.E()+")", "0"))
+		return or(eq(v.E(), "0"), eq("(select "+st.get(u, u.mapLen(tt))+" "+v.E()+")", "0"))
 	}
 	return "false"
 }
@@ -238,7 +300,7 @@ func (fc *fctx) jsonMarshal(cc *ssa.CallCommon, pos token.Pos) []*Val {
 	tr.assume(eq(eq(ifPart(errv, 0), "0"), okc))
 	J := "(jv " + b.E() + ")"
 	a := tr.alloc()
-	tr.assume(implies(okc, and(eq(slPart(b, 0), a), eq(slPart(b, 1), "0"), "(> "+slPart(b, 2)+" 0)", "(>= "+slPart(b, 3)+" "+slPart(b, 2)+")")))
+	tr.assume(implies(okc, and(eq(slPart(b, 0), a), eq(slPart(b, 1), "0"), "(> "+slPart(b, 2)+" 0)", "(>= "+slPart(b, 3)+" "+slPart(b, 2)+")", "(jWF "+b.E()+")")))
 	tr.assume(implies(not(okc), eq(slPart(b, 0), "0")))
 	var sv *Val // struct value to encode field by field
 	var st *types.Struct
@@ -261,12 +323,19 @@ func (fc *fctx) jsonMarshal(cc *ssa.CallCommon, pos token.Pos) []*Val {
 		valExpr := "jNull"
 		for _, f := range fields {
 			fv := sv
+			incl := "true"
 			for _, i := range f.path {
+				if i == derefStep {
+					// promoted through an embedded pointer: absent when the pointer is nil
+					pt := fv.T.Underlying().(*types.Pointer)
+					incl = and(incl, not(eq(fv.E(), "0")))
+					fv = tr.loadTag(tr.cur, fv.E(), pt.Elem(), "cell")
+					continue
+				}
 				fv = u.fieldOf(fv, i)
 			}
-			incl := "true"
 			if f.omitempty {
-				incl = not(tr.emptyOf(fv, f.typ))
+				incl = and(incl, not(tr.emptyOf(fv, f.typ)))
 			}
 			isK := eq("k", smtString(f.name))
 			cnt = append(cnt, ite(and(isK, incl), "1", "0"))
@@ -287,6 +356,13 @@ func (fc *fctx) jsonMarshal(cc *ssa.CallCommon, pos token.Pos) []*Val {
 			tr.assume(implies(okc, and("(isObj "+J+")",
 				fmt.Sprintf("(forall ((k String)) (! (= (oCnt %s k) (ite (select %s k) 1 0)) :pattern ((oCnt %s k))))", J, dom, J),
 				fmt.Sprintf("(forall ((k String)) (! (=> (select %s k) (= (oVal %s k) (%s (select %s k)))) :pattern ((oVal %s k))))", dom, J, tr.encFn(mt.Elem()), vals, J))))
+		} else if viaPtr && opaque {
+			// a pointer to a kind with its own encoder: null for nil, otherwise the encoding of what it designates
+			lv := tr.loadTag(tr.cur, v.E(), base, "cell")
+			tr.assume(implies(okc, eq(J, ite(eq(v.E(), "0"), "jNull", "("+tr.encFn(base)+" "+lv.E()+")"))))
+			bok := "encOK_" + typeKey(base)
+			u.decl(bok, fmt.Sprintf("(declare-fun %s (%s) Bool)", bok, u.sortOf(base)))
+			tr.assume(eq(okc, or(eq(v.E(), "0"), "("+bok+" "+lv.E()+")")))
 		} else {
 			tr.assume(implies(okc, eq(J, "("+tr.encFn(t)+" "+v.E()+")")))
 		}
@@ -366,6 +442,9 @@ func (fc *fctx) jsonUnmarshal(cc *ssa.CallCommon, pos token.Pos) []*Val {
 			cur := base
 			tag := "cell"
 			for _, i := range f.path {
+				if i == derefStep {
+					unsup("json.Unmarshal into a struct with an embedded pointer")
+				}
 				s, _ := structOf(cur)
 				sname := u.sortOf(cur)
 				tag = sname[2:] + "_" + sanitize(s.Field(i).Name())
@@ -393,10 +472,10 @@ func (fc *fctx) jsonUnmarshal(cc *ssa.CallCommon, pos token.Pos) []*Val {
 			present := and("(> (oCnt "+J+" "+smtString(up.f.name)+") 0)", not(eq("(oVal "+J+" "+smtString(up.f.name)+")", "jNull")))
 			dec, _ := tr.decFn(up.f.typ)
 			dv := "(" + dec + " (oVal " + J + " " + smtString(up.f.name) + "))"
-			switch up.f.typ.Underlying().(type) {
+			switch ft := up.f.typ.Underlying().(type) {
 			case *types.Map:
 				tr.assume(implies(and(okc, present), and("(>= "+dv+" "+allocBefore+")", "(< "+dv+" "+allocAfter+")", eq("(obase "+dv+")", dv),
-					eq(eq("(select "+tr.cur.get(u, "MLen")+" "+dv+")", "0"), "(jEmptyObj (oVal "+J+" "+smtString(up.f.name)+"))"))))
+					eq(eq("(select "+tr.cur.get(u, u.mapLen(ft))+" "+dv+")", "0"), "(jEmptyObj (oVal "+J+" "+smtString(up.f.name)+"))"))))
 			case *types.Pointer:
 				tr.assume(implies(and(okc, present), and("(>= "+dv+" "+allocBefore+")", "(< "+dv+" "+allocAfter+")", eq("(obase "+dv+")", dv))))
 			}
@@ -418,7 +497,7 @@ func (fc *fctx) jsonUnmarshal(cc *ssa.CallCommon, pos token.Pos) []*Val {
 		ln := u.freshConst("jlen", "Int")
 		tr.assume("(>= " + ln + " 0)")
 		tr.assume(fmt.Sprintf("(= (= %s 0) (forall ((k String)) (! (not (select %s k)) :pattern ((select %s k)))))", ln, domN, domN))
-		tr.setComp("MLen", fmt.Sprintf("(store %s %s %s)", tr.cur.get(u, "MLen"), m, ln))
+		tr.setComp(u.mapLen(mt), fmt.Sprintf("(store %s %s %s)", tr.cur.get(u, u.mapLen(mt)), m, ln))
 		// json.Unmarshal into a nil map allocates; into a non-nil map it adds entries: the package only passes nil maps
 		old := tr.loadTag(tr.cur, p.E(), base, fc.addrTag(inner))
 		tr.obligeAssume("safe", "safe/"+fnKey(fc.fn)+"/json.Unmarshal-into-fresh-map", eq(old.E(), "0"), pos)
@@ -529,6 +608,9 @@ func (tr *Translator) jsonLiteralFacts(b *Val, lit string) {
 	}
 	tr.jsonDecls()
 	J := "(jv " + b.E() + ")"
+	if lit == strings.TrimSpace(lit) && len(lit) > 0 {
+		tr.assume(and("(jWF "+b.E()+")", eq("(jbyte0 "+b.E()+")", fmt.Sprint(int(lit[0])))))
+	}
 	switch x := v.(type) {
 	case nil:
 		tr.assume(eq(J, "jNull"))
@@ -558,6 +640,11 @@ func (tr *Translator) jsonLiteralFacts(b *Val, lit string) {
 			fmt.Sprintf("(forall ((k String)) (! (=> (> (oCnt %s k) 0) (= (oVal %s k) %s)) :pattern ((oVal %s k))))", J, J, valExpr, J)))
 	case bool:
 		tr.assume(eq(J, "("+tr.encFn(types.Typ[types.Bool])+" "+fmt.Sprint(x)+")"))
+		if x {
+			tr.assume(eq(J, "jTrue"))
+		} else {
+			tr.assume(eq(J, "jFalse"))
+		}
 		tr.assume(not("(isObj " + J + ")"))
 	default:
 		tr.assume(not("(isObj " + J + ")"))
@@ -576,3 +663,79 @@ func (tr *Translator) opaqueCodec(m *ssa.Function) bool {
 	}
 	return false
 }
+
+// constGlobalLiteral: a package-level `var x = []byte("lit")` that no function of the package writes or takes the
+// address of (other than to read it): its value is the literal.
+func (tr *Translator) constGlobalLiteral(g *ssa.Global) (string, bool) {
+	if tr.globalLits == nil {
+		tr.globalLits = map[*ssa.Global]*string{}
+	}
+	if p, ok := tr.globalLits[g]; ok {
+		if p == nil {
+			return "", false
+		}
+		return *p, true
+	}
+	tr.globalLits[g] = nil
+	if g.Pkg != tr.spkg {
+		return "", false
+	}
+	// every use outside the package initialiser must be a load
+	for _, fn := range allFuncs {
+		if fn.Name() == "init" || strings.HasPrefix(fn.Name(), "init#") {
+			continue
+		}
+		for _, b := range fn.Blocks {
+			for _, ins := range b.Instrs {
+				for _, op := range ins.Operands(nil) {
+					if *op == ssa.Value(g) {
+						if u, ok := ins.(*ssa.UnOp); !ok || u.Op != token.MUL {
+							return "", false
+						}
+					}
+				}
+			}
+		}
+	}
+	// the initialiser in the source:  var name = []byte("lit")
+	for _, f := range pkgSyntax {
+		for _, d := range f.Decls {
+			gd, ok := d.(*ast.GenDecl)
+			if !ok || gd.Tok != token.VAR {
+				continue
+			}
+			for _, sp := range gd.Specs {
+				vs := sp.(*ast.ValueSpec)
+				for i, n := range vs.Names {
+					if n.Name != g.Name() || i >= len(vs.Values) {
+						continue
+					}
+					call, ok := vs.Values[i].(*ast.CallExpr)
+					if !ok || len(call.Args) != 1 {
+						continue
+					}
+					at, ok := call.Fun.(*ast.ArrayType)
+					if !ok || at.Len != nil {
+						continue
+					}
+					if id, ok := at.Elt.(*ast.Ident); !ok || id.Name != "byte" {
+						continue
+					}
+					bl, ok := call.Args[0].(*ast.BasicLit)
+					if !ok || bl.Kind != token.STRING {
+						continue
+					}
+					lit, err := strconv.Unquote(bl.Value)
+					if err != nil {
+						continue
+					}
+					tr.globalLits[g] = &lit
+					return lit, true
+				}
+			}
+		}
+	}
+	return "", false
+}
+
+var pkgSyntax []*ast.File
